@@ -49,3 +49,83 @@ def const_call(pm: PM, short: str):
     it = interp_for(pm)
     fi = pm.func(short)
     return constof(it.call_func(fi, None, [], {}, _DUMMY))
+
+
+# ---------------------------------------------------------------------------------------------- keyword expansion
+def _subst(expr: ast.AST, binds: dict) -> ast.AST:
+    """copy of expr with the names in `binds` replaced by Constant nodes"""
+    import copy
+
+    class S(ast.NodeTransformer):
+        def visit_Name(self, n):
+            if isinstance(n.ctx, ast.Load) and n.id in binds:
+                return ast.copy_location(ast.Constant(value=binds[n.id]), n)
+            return n
+    return S().visit(copy.deepcopy(expr))
+
+
+def _bind_target(target: ast.AST, value, out: dict) -> bool:
+    if isinstance(target, ast.Name):
+        out[target.id] = value
+        return True
+    if isinstance(target, (ast.Tuple, ast.List)) and isinstance(value, (tuple, list)) and len(value) == len(target.elts):
+        return all(_bind_target(t, v, out) for t, v in zip(target.elts, value))
+    return False
+
+
+def expand_keywords(pm: PM, fi, call: ast.Call):
+    """(pairs, complete): the keyword arguments of a call as (name, value expression) pairs with `**mapping`
+    arguments expanded when the mapping is a dict display or a dict comprehension over a constant table
+    (table-driven construction).  The value expressions of expanded entries have the comprehension variables
+    replaced by the constants of the table row.  complete=False when some `**x` could not be expanded."""
+    from .astmatch import assignments, mutated
+    pairs, complete = [], True
+    asg = None
+    for k in call.keywords:
+        if k.arg is not None:
+            pairs.append((k.arg, k.value))
+            continue
+        v = k.value
+        seen = 0
+        while isinstance(v, ast.Name) and seen < 4:
+            if asg is None:
+                fn = fi.node
+                asg = assignments(fn)
+                mut = mutated(fn)
+            vals = asg.get(v.id, [])
+            if len(vals) != 1 or v.id in mut or isinstance(vals[0], ast.Constant):
+                break
+            v = vals[0]
+            seen += 1
+        if isinstance(v, ast.Call) and isinstance(v.func, ast.Name) and v.func.id == "dict" and len(v.args) == 1 and not v.keywords:
+            v = v.args[0]
+        if isinstance(v, ast.Dict) and all(kk is not None for kk in v.keys):
+            ok = True
+            for kk, vv in zip(v.keys, v.values):
+                name = const_expr(pm, fi.module, kk)
+                if not isinstance(name, str):
+                    ok = False
+                    break
+                pairs.append((name, vv))
+            complete = complete and ok
+            continue
+        if isinstance(v, ast.DictComp) and len(v.generators) == 1 and not v.generators[0].ifs:
+            g = v.generators[0]
+            table = const_expr(pm, fi.module, g.iter)
+            if table is not NOC and isinstance(table, (list, tuple, dict)):
+                rows = list(table)
+                ok = True
+                for row in rows:
+                    binds: dict = {}
+                    if not _bind_target(g.target, row, binds):
+                        ok = False
+                        break
+                    name = const_expr(pm, fi.module, _subst(v.key, binds))
+                    if not isinstance(name, str):
+                        ok = False
+                        break
+                    pairs.append((name, _subst(v.value, binds)))
+                complete = complete and ok
+                continue
+        complete = False
+    return pairs, complete
